@@ -75,6 +75,10 @@ class Frame:
         self.defcls = self_cls
 
 
+class _NoReturn(Exception):
+    """an inlined callee never returns normally (every path raises): the calling path ends here"""
+
+
 UNSUPPORTED = 'unsupported'
 
 
@@ -130,7 +134,10 @@ class Evaluator:
         kw = dict(kwargs or {})
         if args:
             kw.update(args)
-        res = self._invoke(fi, st, pos, kw, star_kwargs, self_val, node=fi.node, top=True)
+        try:
+            res = self._invoke(fi, st, pos, kw, star_kwargs, self_val, node=fi.node, top=True)
+        except _NoReturn:
+            res = NONE
         return res, st
 
     # ------------------------------------------------------------------ invocation
@@ -205,12 +212,16 @@ class Evaluator:
         finally:
             self.frames.pop()
 
-    def _invoke(self, fi: FuncInfo, st: State, pos, kw, star_kw, self_val, node, top=False) -> Val:
+    def _invoke(self, fi: FuncInfo, st: State, pos, kw, star_kw, self_val, node, top=False, closure_env=None) -> Val:
         if self.depth >= self.max_depth:
             return self.opaque_call(fi, st, pos, kw, star_kw, self_val, node)
         env = self._bind(fi, st, pos, kw, star_kw, self_val, node, top=top)
         if env is None:
             return Term('badcall', (Const(fi.qualname),), uid=fresh_serial(), node=node)
+        if closure_env:
+            merged = dict(closure_env)
+            merged.update(env)
+            env = merged
         sub = State(env, st.heap, st.guard, {})
         fr = Frame(fi, fi.module, fi.cls)
         self.frames.append(fr)
@@ -227,6 +238,8 @@ class Evaluator:
             # control may fall off the end of a function that also returns values: implicit None
             fr.returns.append((sub.guard, NONE))
             self.emit('fallthrough', sub, fi.node, func=fi)
+        if not falls and not fr.returns and not top:
+            raise _NoReturn()
         # path facts that hold on every normal exit of the callee hold afterwards in the caller
         # (e.g. the negation of a guard whose failing branch raises)
         exits = [g[len(st.guard):] for g, _ in fr.returns]
@@ -284,7 +297,14 @@ class Evaluator:
         if m is None:
             self.unsupported(st, s, type(s).__name__)
             return True
-        return m(s, st)
+        depth = len(self.frames)
+        loops = len(self.loops)
+        try:
+            return m(s, st)
+        except _NoReturn:
+            del self.frames[depth:]
+            del self.loops[loops:]
+            return False
 
     def exec_Pass(self, s, st):
         return True
@@ -530,13 +550,16 @@ class Evaluator:
         elif isinstance(it, Term) and it.head == 'enumerate':
             ctx.kind = 'zip'
             a = it.args[0]
-            ctx.hi = a.length if isinstance(a, Num) else None
-            elem = Tup([Num(lsym), self.element_of(a, lsym)])
+            ctx.hi = a.length if isinstance(a, Num) else (term_as_num(a, True).length if isinstance(a, Term) else None)
+            start = it.kw('start') if it.kw('start') is not None else (it.args[1] if len(it.args) > 1 else Num(C(0)))
+            elem = Tup([Num(lsym + start.r) if isinstance(start, Num) else Term('binop:Add', (Num(lsym), start)), self.element_of(a, lsym)])
         else:
             if isinstance(it, Num) and it.length is not None:
                 ctx.hi = it.length
             elif isinstance(it, Tup):
                 ctx.hi = C(len(it.items))
+            elif isinstance(it, Term) and it.kind in ('ndarray', 'list', 'unknown'):
+                ctx.hi = term_as_num(it, True, it.kind).length
             elem = self.element_of(it, lsym)
         body = st.clone()
         self.havoc(body, names, stores, lid, 'in', targets=tnames)
@@ -646,7 +669,10 @@ class Evaluator:
         return r
 
     def exec_FunctionDef(self, s, st):
-        st.env[s.name] = Term('localdef', (Const(s.name),), uid=fresh_serial())
+        fr = self.frames[-1]
+        owner = fr.func.qualname if fr.func is not None else fr.module.name
+        fi = FuncInfo(f"{owner}.<locals>.{s.name}", fr.module, s, None)
+        st.env[s.name] = Fn('closure', fi, env=st.env, module=fr.module, defcls=fr.defcls)
         return True
 
     def exec_Delete(self, s, st):
@@ -760,6 +786,9 @@ class Evaluator:
             return Fn('builtin', f"ndarray.{attr}", self_val=base)
         if isinstance(base, Term) and base.head == 'module':
             return Term('attr', (base, Const(attr)))
+        if isinstance(base, Term) and base.kind in ('ndarray', 'list') and attr in ('size', 'shape'):
+            n_ = term_as_num(base, True, base.kind)
+            return Num(n_.length) if attr == 'size' else Tup([Num(n_.length)])
         if isinstance(base, Gam):
             return gamma(base.pred, self.getattr_val(base.a, attr, st, node), self.getattr_val(base.b, attr, st, node))
         if attr in NDARRAY_METHODS or attr in MUTATING_METHODS or attr in ('append', 'extend', 'values', 'read_text', 'hexdigest', 'update', 'read',
@@ -899,6 +928,8 @@ class Evaluator:
         if isinstance(op, ast.Div) and isinstance(a, Term) and a.kind == 'path':
             return Term('pathjoin', (a, b), kind='path')
         if isinstance(a, Const) and isinstance(a.v, str) or isinstance(b, Const) and isinstance(b.v, str):
+            if isinstance(op, ast.Add) and isinstance(a, Const) and isinstance(b, Const) and isinstance(a.v, str) and isinstance(b.v, str):
+                return Const(a.v + b.v)
             return Term('strop', (a, b), kind='str')
         if isinstance(op, ast.Div) and isinstance(a, Term) and a.head.startswith('lib:importlib.resources.files'):
             return Term('pathjoin', (a, b), kind='path')
@@ -1092,14 +1123,19 @@ class Evaluator:
         return self.eval(sl, st)
 
     def subscript(self, base: Val, sl, st, node) -> Val:
+        return self.subscript_val(base, None, st, node, sl)
+
+    def subscript_val(self, base: Val, idx: Optional[Val], st, node, sl=None) -> Val:
         if isinstance(base, Obj):
             m = self.prog.find_method(base.cls, '__getitem__')
             if m is not None:
-                idx = self.eval_index(sl, st, base)
+                if idx is None:
+                    idx = self.eval_index(sl, st, base)
                 return self._invoke(m, st, [idx], {}, None, base, node)
+        if idx is None:
+            idx = self.eval_index(sl, st, base)
         if isinstance(base, Gam):
-            return gamma(base.pred, self.subscript(base.a, sl, st, node), self.subscript(base.b, sl, st, node))
-        idx = self.eval_index(sl, st, base)
+            return gamma(base.pred, self.subscript_val(base.a, idx, st, node), self.subscript_val(base.b, idx, st, node))
         if isinstance(base, Tup):
             if isinstance(idx, Num) and idx.is_const():
                 i = int(idx.const())
@@ -1227,6 +1263,8 @@ class Evaluator:
                 return t
             if fn.fkind == 'lambda':
                 return self.call_lambda(fn, pos, kw, st, node)
+            if fn.fkind == 'closure':
+                return self._invoke(fn.ref, st, pos, kw, star_kw, None, node, closure_env=fn.env)
             if fn.fkind == 'lib':
                 return self.call_lib(fn.ref, pos, kw, star_kw, st, node)
             if fn.fkind == 'builtin':
@@ -1362,6 +1400,14 @@ def normalise_lib_args(dotted: str, pos, kw):
     except (TypeError, ValueError):
         return pos, kw
     out_pos, out_kw = [], {}
+    # BSpline(t, c, k) with (t, c, k) = the items of one tuple-valued term  ==  BSpline(*that term)
+    vals_in_order = list(pos) + list(kw.values())
+    if len(vals_in_order) >= 2 and all(isinstance(v, Term) and v.head == 'item' and len(v.args) == 2 and isinstance(v.args[1], Const) for v in vals_in_order):
+        src = vals_in_order[0].args[0]
+        names = list(binding)
+        if all(veq(v.args[0], src) for v in vals_in_order) and [v.args[1].v for v in vals_in_order] == list(range(len(vals_in_order))) \
+                and names[:len(vals_in_order)] == list(sig.parameters)[:len(vals_in_order)]:
+            return [Term('star', (src,))], {}
     for pname, b in binding.items():
         par = sig.parameters[pname]
         if par.kind == par.VAR_POSITIONAL:
@@ -1394,7 +1440,7 @@ def _order(a: Num, b: Num) -> bool:
     return sym.show(a.r) > sym.show(b.r)
 
 
-BUILTINS = {'len', 'int', 'float', 'abs', 'min', 'max', 'range', 'zip', 'enumerate', 'isinstance', 'iter', 'next', 'open',
+BUILTINS = {'setattr', 'slice', 'len', 'int', 'float', 'abs', 'min', 'max', 'range', 'zip', 'enumerate', 'isinstance', 'iter', 'next', 'open',
             'getattr', 'sum', 'round', 'str', 'list', 'tuple', 'print', 'sorted', 'bool', 'hasattr', 'type', 'dict', 'set',
             'any', 'all', 'map', 'filter', 'reversed', 'ValueError', 'IndexError', 'OSError', 'TypeError', 'KeyError',
             'AttributeError', 'Exception', 'TimeoutError', 'RuntimeError', 'NotImplementedError', 'StopIteration', 'callable',
@@ -1531,8 +1577,100 @@ def h_power(ev, pos, kw, st, node):
     return Num(sym.mk_pow(a.r, b.r), a.length if a.length is not None else b.length)
 
 
+def _cat_part(ev, v):
+    """normalise one operand of a 1-D concatenation: a one-element list display is its element"""
+    if isinstance(v, Tup) and len(v.items) == 1 and isinstance(v.items[0], Num) and v.items[0].length is None:
+        return v.items[0]
+    return v
+
+
+def mk_cat(parts) -> Val:
+    flat = []
+    for p_ in parts:
+        t = arr_identity(p_) if isinstance(p_, Num) else p_
+        if isinstance(t, Term) and t.head == 'cat':
+            flat.extend(t.args)
+        else:
+            flat.append(p_)
+    return Term('cat', tuple(flat), kind='ndarray')
+
+
 def h_append(ev, pos, kw, st, node):
+    arr, vals = _arg(pos, kw, 0, 'arr'), _arg(pos, kw, 1, 'values')
+    if arr is None or vals is None or 'axis' in kw or len(pos) > 2:
+        return None
+    return mk_cat([arr, _cat_part(ev, vals)])
+
+
+def h_concatenate(ev, pos, kw, st, node):
+    seq = _arg(pos, kw, 0, 'arrays')
+    if not isinstance(seq, Tup) or (set(kw) - {'arrays'}) or len(pos) > 1:
+        return None
+    return mk_cat([_cat_part(ev, x) for x in seq.items])
+
+
+def h_insert(ev, pos, kw, st, node):
+    arr, obj, vals = _arg(pos, kw, 0, 'arr'), _arg(pos, kw, 1, 'obj'), _arg(pos, kw, 2, 'values')
+    if arr is None or obj is None or vals is None or 'axis' in kw or len(pos) > 3:
+        return None
+    a = ev.as_num(arr, True) if not isinstance(arr, Num) else arr
+    if isinstance(obj, Num) and obj.length is None:
+        if obj.is_const() and obj.const() == 0:
+            return mk_cat([_cat_part(ev, vals), arr])
+        if a is not None and a.length is not None and obj.r == a.length:
+            return mk_cat([arr, _cat_part(ev, vals)])
     return None
+
+
+def h_binary(opname):
+    import ast as _ast
+    op = {'add': _ast.Add(), 'subtract': _ast.Sub(), 'multiply': _ast.Mult(), 'divide': _ast.Div(), 'true_divide': _ast.Div(), 'power': _ast.Pow()}[opname]
+
+    def h(ev, pos, kw, st, node):
+        if len(pos) != 2 or kw:
+            return None
+        return ev.binop(op, pos[0], pos[1], st, node)
+    return h
+
+
+def h_square(ev, pos, kw, st, node):
+    v = ev.as_num(pos[0], True) if pos and not kw and len(pos) == 1 else None
+    if v is None:
+        return None
+    return Num(v.r * v.r, v.length, v.kind if v.length is not None else None)
+
+
+def h_negative(ev, pos, kw, st, node):
+    v = ev.as_num(pos[0]) if pos and not kw and len(pos) == 1 else None
+    return Num(-v.r, v.length, v.kind if v.length is not None else None) if v is not None else None
+
+
+def h_shape(ev, pos, kw, st, node):
+    v = pos[0] if pos else kw.get('a')
+    if isinstance(v, Num):
+        return Tup([Num(v.length)]) if v.length is not None else Tup([])
+    return None
+
+
+def h_size(ev, pos, kw, st, node):
+    v = pos[0] if pos else kw.get('a')
+    if isinstance(v, Num) and v.length is not None and len(pos) + len(kw) == 1:
+        return Num(v.length)
+    return None
+
+
+def h_nonzero_tuple(ev, pos, kw, st, node):
+    c = pos[0] if len(pos) == 1 and not kw else None
+    if c is None:
+        return None
+    return Tup([Term('nz', (c,), kind='ndarray')])
+
+
+def h_flatnonzero(ev, pos, kw, st, node):
+    c = pos[0] if len(pos) == 1 and not kw else kw.get('a') if len(kw) == 1 and not pos else None
+    if c is None:
+        return None
+    return Term('nz', (c,), kind='ndarray')
 
 
 def h_isscalar(ev, pos, kw, st, node):
@@ -1551,6 +1689,10 @@ def h_path_join(ev, pos, kw, st, node):
 LIB_HANDLERS = {
     'numpy.asarray': h_asarray, 'numpy.asanyarray': h_asarray, 'numpy.array': h_asarray,
     'numpy.ascontiguousarray': h_asarray, 'numpy.atleast_1d': h_asarray,
+    'numpy.copy': h_asarray, 'numpy.append': h_append, 'numpy.concatenate': h_concatenate, 'numpy.insert': h_insert, 'numpy.hstack': h_concatenate,
+    'numpy.add': h_binary('add'), 'numpy.subtract': h_binary('subtract'), 'numpy.multiply': h_binary('multiply'),
+    'numpy.divide': h_binary('divide'), 'numpy.true_divide': h_binary('true_divide'), 'numpy.square': h_square, 'numpy.negative': h_negative,
+    'numpy.shape': h_shape, 'numpy.size': h_size, 'numpy.where': h_nonzero_tuple, 'numpy.nonzero': h_nonzero_tuple, 'numpy.flatnonzero': h_flatnonzero,
     'numpy.sum': h_sum, 'numpy.diff': h_diff, 'numpy.abs': h_abs, 'numpy.absolute': h_abs, 'numpy.fabs': h_abs,
     'numpy.mean': _reduce('Mean'), 'numpy.std': h_std, 'numpy.var': h_var, 'numpy.min': _reduce('Min'),
     'numpy.max': _reduce('Max'), 'numpy.amin': _reduce('Min'), 'numpy.amax': _reduce('Max'),
@@ -1632,7 +1774,7 @@ def b_zip(ev, pos, kw, st, node):
 
 
 def b_enumerate(ev, pos, kw, st, node):
-    return Term('enumerate', pos)
+    return Term('enumerate', pos, list(kw.items()))
 
 
 def b_isinstance(ev, pos, kw, st, node):
@@ -1643,6 +1785,13 @@ def b_isinstance(ev, pos, kw, st, node):
             return Const(v.length is None)
         if isinstance(v, (Tup, Kw, Const)):
             return Const(isinstance(v, Const) and isinstance(v.v, int) and not isinstance(v.v, bool))
+    if tn == 'str':
+        if isinstance(v, Const):
+            return Const(isinstance(v.v, str))
+        if isinstance(v, (Num, Tup, Kw, Obj, Fn)):
+            return FALSE
+        if isinstance(v, Term) and v.kind == 'str':
+            return TRUE
     if tn in ('tuple', 'list'):
         if isinstance(v, Tup):
             return Const(v.kind == tn)
@@ -1652,7 +1801,29 @@ def b_isinstance(ev, pos, kw, st, node):
 
 
 def b_getattr(ev, pos, kw, st, node):
+    if len(pos) >= 2 and isinstance(pos[0], Obj) and isinstance(pos[1], Const) and isinstance(pos[1].v, str):
+        return ev.getattr_val(pos[0], pos[1].v, st, node)
     return Term('getattr', pos, kind='unknown')
+
+
+def b_setattr(ev, pos, kw, st, node):
+    if len(pos) == 3 and isinstance(pos[0], Obj) and isinstance(pos[1], Const) and isinstance(pos[1].v, str):
+        st.heap.setdefault(pos[0].oid, {})[pos[1].v] = pos[2]
+        ev.emit('field', st, node, obj=pos[0], field=pos[1].v, value=pos[2])
+        return NONE
+    ev.issue(st, node, 'setattr with a computed attribute name')
+    return Term(UNSUPPORTED, (Const('setattr'),), uid=fresh_serial())
+
+
+def b_slice(ev, pos, kw, st, node):
+    vals = list(pos) + [NONE] * (3 - len(pos))
+    if len(pos) == 1:
+        vals = [NONE, pos[0], NONE]
+    return Term('slice', tuple(vals[:3]))
+
+
+def b_str_isinstance_helper():
+    return None
 
 
 def b_next(ev, pos, kw, st, node):
@@ -1684,7 +1855,7 @@ def b_exc(name):
     return h
 
 
-BUILTIN_HANDLERS = {'len': b_len, 'int': b_int, 'float': b_float, 'abs': b_abs, 'min': _minmax('min'), 'max': _minmax('max'),
+BUILTIN_HANDLERS = {'setattr': b_setattr, 'slice': b_slice, 'len': b_len, 'int': b_int, 'float': b_float, 'abs': b_abs, 'min': _minmax('min'), 'max': _minmax('max'),
                     'range': b_range, 'zip': b_zip, 'enumerate': b_enumerate, 'isinstance': b_isinstance,
                     'getattr': b_getattr, 'next': b_next, 'iter': b_iter, 'bool': b_bool, 'list': b_list}
 for _n in ('ValueError', 'IndexError', 'OSError', 'TypeError', 'KeyError', 'AttributeError', 'Exception', 'RuntimeError'):
@@ -1746,6 +1917,14 @@ def m_extend(ev, recv, pos, kw, st, node):
     return NONE
 
 
+def m_get(ev, recv, pos, kw, st, node):
+    if isinstance(recv, Kw) and recv.rest is None and pos and isinstance(pos[0], Const):
+        if pos[0].v in recv.items:
+            return recv.items[pos[0].v]
+        return pos[1] if len(pos) > 1 else NONE
+    return None
+
+
 def m_replace(ev, recv, pos, kw, st, node):
     if isinstance(recv, Const) and isinstance(recv.v, str) and all(isinstance(p, Const) for p in pos):
         return Const(recv.v.replace(*[p.v for p in pos]))
@@ -1758,7 +1937,7 @@ def m_startswith(ev, recv, pos, kw, st, node):
     return P('startswith', recv, *pos)
 
 
-METHOD_HANDLERS = {'sum': m_sum, 'copy': m_copy, 'min': m_reduce('Min'), 'max': m_reduce('Max'), 'mean': m_reduce('Mean'),
+METHOD_HANDLERS = {'get': m_get, 'sum': m_sum, 'copy': m_copy, 'min': m_reduce('Min'), 'max': m_reduce('Max'), 'mean': m_reduce('Mean'),
                    'std': m_std, 'astype': m_astype, 'flatten': m_flatten, 'ravel': m_flatten, 'item': m_item,
                    'take': m_take, 'append': m_append, 'extend': m_extend, 'replace': m_replace,
                    'startswith': m_startswith}
